@@ -28,6 +28,8 @@ type rconn struct {
 	resume   chan struct{}
 	stalled  bool
 	finished bool
+	// a REQ was sent while stalled: the receive loop is blocked handing over its EOSE
+	pendingReq bool
 }
 
 func (c *rconn) reader(stop <-chan struct{}) {
@@ -111,13 +113,19 @@ type routerRun struct {
 }
 
 func isEOSE(sub string) func(mocrelay.ServerMsg) bool {
-	return func(m mocrelay.ServerMsg) bool { x, ok := m.(*mocrelay.ServerEOSEMsg); return ok && x.SubscriptionID == sub }
+	return func(m mocrelay.ServerMsg) bool {
+		x, ok := m.(*mocrelay.ServerEOSEMsg)
+		return ok && x.SubscriptionID == sub
+	}
 }
 func isOKFor(id string) func(mocrelay.ServerMsg) bool {
 	return func(m mocrelay.ServerMsg) bool { x, ok := m.(*mocrelay.ServerOKMsg); return ok && x.EventID == id }
 }
 func isCountFor(sub string) func(mocrelay.ServerMsg) bool {
-	return func(m mocrelay.ServerMsg) bool { x, ok := m.(*mocrelay.ServerCountMsg); return ok && x.SubscriptionID == sub }
+	return func(m mocrelay.ServerMsg) bool {
+		x, ok := m.(*mocrelay.ServerCountMsg)
+		return ok && x.SubscriptionID == sub
+	}
 }
 
 // flush: everything enqueued for c before this call has been received when it returns
@@ -173,6 +181,21 @@ func (c *rconn) collect() []mocrelay.ServerMsg {
 	return out
 }
 
+// number of registered subscriptions, read through the hook; false if the registry's locks are not released within 2 s
+func registrySubs(router *mocrelay.RouterHandler) (int, bool) {
+	res := make(chan int, 1)
+	go func() { _, n := registrySize(router); res <- n }()
+	select {
+	case n := <-res:
+		return n, true
+	case <-time.After(2 * time.Second):
+		return 0, false
+	}
+}
+
+// cases of this run in which a step did not complete: after a few the sweep stops (each one waits ten seconds)
+var routerBlockedCases int
+
 func runRouterCase(n, buflen int, steps []routerStep) {
 	router := mocrelay.NewRouterHandler(buflen)
 	stop := make(chan struct{})
@@ -189,7 +212,7 @@ func runRouterCase(n, buflen int, steps []routerStep) {
 	for _, st := range steps {
 		c := rr.conns[st.C]
 		o := M{"k": st.K, "c": st.C}
-		if c.finished || (c.stalled && st.K != "resume" && st.K != "disconnect") {
+		if c.finished || (c.stalled && st.K != "resume" && st.K != "disconnect" && st.K != "reqstalled") {
 			continue
 		}
 		switch st.K {
@@ -203,6 +226,35 @@ func runRouterCase(n, buflen int, steps []routerStep) {
 				o["reply"] = smsgsJ([]mocrelay.ServerMsg{m})
 			} else {
 				rr.blocked = true
+			}
+		case "reqstalled":
+			// a REQ from a connection that is not reading: its EOSE cannot be delivered, so its receive loop stays
+			// blocked until the connection resumes - and nobody else may be held up by that
+			if !c.stalled || c.pendingReq {
+				continue
+			}
+			o["sub"], o["filters"] = st.Sub, filtersJ(st.Fs)
+			before, ok := registrySubs(router)
+			if !ok {
+				rr.blocked = true
+				break
+			}
+			if !c.sendMsg(&mocrelay.ClientReqMsg{SubscriptionID: st.Sub, ReqFilters: st.Fs}, routerWait) {
+				rr.blocked = true
+				break
+			}
+			c.pendingReq = true
+			// the subscription id is a fresh one: wait until the registry holds it (no reply can be waited for)
+			for t := 0; t < 2000; t++ {
+				now, ok := registrySubs(router)
+				if !ok {
+					rr.blocked = true // the registry is locked for good: every publisher will wait as well
+					break
+				}
+				if now == before+1 {
+					break
+				}
+				time.Sleep(time.Duration(1+t/100) * time.Millisecond)
 			}
 		case "close":
 			o["sub"] = st.Sub
@@ -270,6 +322,7 @@ func runRouterCase(n, buflen int, steps []routerStep) {
 			}
 			c.resume <- struct{}{}
 			c.stalled = false
+			c.pendingReq = false
 			rr.flush(c)
 			o["got"] = M{fmt.Sprint(c.idx): smsgsJ(c.collect())}
 		}
@@ -284,6 +337,9 @@ func runRouterCase(n, buflen int, steps []routerStep) {
 		c.cancel()
 	}
 	close(stop)
+	if rr.blocked {
+		routerBlockedCases++
+	}
 	emit(M{"op": "router", "n": n, "buflen": buflen, "steps": outs})
 }
 
@@ -345,6 +401,8 @@ func genRouterCase(r *Rng) (int, int, []routerStep) {
 	var steps []routerStep
 	stalled := map[int]bool{}
 	finished := map[int]bool{}
+	pendingReq := map[int]bool{}
+	nfresh := 0
 	running := func() []int {
 		var x []int
 		for i := 0; i < n; i++ {
@@ -379,6 +437,11 @@ func genRouterCase(r *Rng) (int, int, []routerStep) {
 			if len(run) > 1 {
 				stalled[c] = true
 				steps = append(steps, routerStep{K: "stall", C: c})
+				if r.P(45) {
+					pendingReq[c] = true
+					nfresh++
+					steps = append(steps, routerStep{K: "reqstalled", C: c, Sub: fmt.Sprintf("w%d", nfresh), Fs: mkFilters()})
+				}
 			}
 		default:
 			for i := 0; i < n; i++ {
@@ -401,7 +464,7 @@ func genRouterCase(r *Rng) (int, int, []routerStep) {
 func init() {
 	props["router"] = propRunner{
 		gen: func(r *Rng, n int, tier string) {
-			for i := 0; i < n; i++ {
+			for i := 0; i < n && routerBlockedCases < 4; i++ {
 				k, b, steps := genRouterCase(r)
 				runRouterCase(k, b, steps)
 			}
